@@ -12,10 +12,13 @@ def main():
     ap.add_argument('--tier', default=os.environ.get('VERIF_TIER', 'quick'), choices=['quick', 'thorough'])
     ap.add_argument('--only')
     ap.add_argument('--replay')
+    ap.add_argument('--selftest', action='store_true')
     ap.add_argument('--jobs', type=int)
     ap.add_argument('--budget', type=float)
     a = ap.parse_args()
     from engine import driver
+    if a.selftest:
+        sys.exit(driver.selftest())
     if a.replay:
         sys.exit(driver.replay_file(a.replay))
     seed = int(os.environ.get('VERIF_SEED', '0') or 0)
